@@ -3,6 +3,7 @@ package c01
 import (
 	"encoding/json"
 	"fmt"
+	"os"
 	"strings"
 	"verif/harness/internal/opshrink"
 
@@ -24,8 +25,20 @@ type fedCase struct {
 
 var fedPart = pbt.Part[fedCase]{Name: "fed-equals-monolith", Quick: 2400, Thorough: 60000, Gen: genFed, Check: checkFed}
 
+// allowFromEnv re-enables excluded generator classes (C01_ALLOW=a,b) — used only to collect
+// probe cases for known findings, never by the registered checks.
+func allowFromEnv() map[string]bool {
+	m := map[string]bool{}
+	for _, c := range strings.Split(os.Getenv("C01_ALLOW"), ",") {
+		if c != "" {
+			m[c] = true
+		}
+	}
+	return m
+}
+
 func genFed(t *rapid.T) fedCase {
-	l := fedgen.Gen(t, fedgen.Options{})
+	l := fedgen.Gen(t, fedgen.Options{Allow: allowFromEnv()})
 	c := fedCase{Layout: l, Seed: rapid.Uint64Range(1, 1<<20).Draw(t, "useed")}
 	super, err := simLoadSuper(l.Super)
 	if err != nil {
@@ -33,7 +46,7 @@ func genFed(t *rapid.T) fedCase {
 	}
 	n := rapid.IntRange(1, 12).Draw(t, "nops")
 	for i := 0; i < n; i++ {
-		c.Ops = append(c.Ops, opgen.Gen(t, super, opgen.Options{Mutations: true, SecondOp: true}))
+		c.Ops = append(c.Ops, opgen.Gen(t, super, opgen.Options{Mutations: true, SecondOp: true, Allow: allowFromEnv()}))
 	}
 	return c
 }
